@@ -2,11 +2,12 @@
 and capped at the stop point".
 
 TaskPool.compute_runahead is 140 lines (set comprehensions over sequences, sorted slices, a cache).
-The two clauses above are decided by its LAST statements, from `pre_adj_limit = limit_point` to the
-`return True`.  That suffix of the real body is verified as a *fragment*: the statements are taken
-mechanically from the FunctionDef in /repo (everything from the first top-level statement whose source
-text starts with the marker), `limit_point` - the limit computed from the sequences by the part that is
-not verified - is an arbitrary cycle point, and the postcondition says that the limit stored is
+The two clauses above are decided by its LAST statements: everything after the if/elif/else that picks the
+un-adjusted limit out of `sorted(sequence_points)`, down to the `return True`.  That suffix of the real body
+is verified as a *fragment*: the statements are taken mechanically from the FunctionDef in /repo (every
+top-level statement after the last one whose source text contains the marker), `limit_point` - the limit
+computed from the sequences by the part that is not verified - is an arbitrary cycle point, and the
+postcondition says that the limit stored is
 
         min(limit_point + max_future_offset (if any), stop_point (if any)).
 
@@ -64,7 +65,9 @@ contract(P + 'compute_runahead', variant='adjustments',
                  'ipt(self.runahead_limit_point) <= ipt(self.stop_point))',
          },
          modifies=['self.runahead_limit_point'], verify_only=True, props=PROPS,
-         options={'fragment_from': 'pre_adj_limit = limit_point', 'fragment_inputs': ['limit_point']})
+         # the fragment: every top-level statement after the if/elif/else that picks the un-adjusted
+         # limit out of the sorted sequence points
+         options={'fragment_after': 'sorted(sequence_points)', 'fragment_inputs': ['limit_point']})
 
 contract(P + 'compute_runahead', variant='whole',
          sorts={'self': 'TaskPool', 'force': 'bool', 'result': 'bool'},
